@@ -112,6 +112,35 @@ fn one_stream(acc: &mut Acc, ops: &[Op], alpha: &[String], how: &str) {
             detail("decoded strings differ from those written", format!("{:?}", other.class())).with("hex", J::s(hex(&bytes))),
         ),
     }
+    // the same stream from a foreign writer that sends every other repeat in full again instead of citing it (the format
+    // allows that, the Scala writer does it): a string that is known keeps its id, later citations mean what they meant
+    if repeats >= 2 {
+        let mut table: std::collections::HashMap<usize, usize> = std::collections::HashMap::new();
+        let mut foreign = Vec::new();
+        let mut nth = 0;
+        for op in ops {
+            if op.dedup {
+                if let Some(pos) = table.get(&op.s).copied() {
+                    nth += 1;
+                    if nth % 2 == 1 {
+                        foreign.extend_from_slice(&plain_bytes(&alpha[op.s]));
+                    } else {
+                        foreign.extend_from_slice(&vi_bytes(-((pos + 1) as i32)));
+                    }
+                    continue;
+                }
+                table.insert(op.s, table.len());
+            }
+            foreign.extend_from_slice(&plain_bytes(&alpha[op.s]));
+        }
+        match read_stream(&foreign, &kinds) {
+            Call::Ok(got) if got == want => acc.count("streams_with_known_strings_sent_in_full_read_back"),
+            other => acc.violation(
+                format!("C09|read_foreign|{}", if other.is_ok() { "other_strings".to_string() } else { other.class() }),
+                detail("a stream in which known strings are sent in full again decodes to other strings", other.class()).with("hex", J::s(hex(&foreign))),
+            ),
+        }
+    }
     // ids never introduced must be errors
     for k in [ids as i64 + 1, ids as i64 + 2, i32::MAX as i64, -(i32::MIN as i64)] {
         let mut hostile = bytes.clone();
